@@ -501,6 +501,37 @@ def rule_importance(ctx):
             res.sample({"fn": key, "form": "seq.map(|x| x / seq.sum())"})
         else:
             res.violate("%s : not-self-normalised" % key, why + ": the importances then do not sum to one", fn_loc(fn))
+    # no path hands the unnormalised values out under a *positive* threshold on their sum: every tree with a split has a
+    # positive sum, however small (the minimum impurity decrease is a parameter), and its importances sum to one
+    for fn in find_fn(res, F, "relative_impurity_decrease", "DecisionTree"):
+        c = fn["crate"]
+        key = fn_key(fn)
+        for y in walk(fn["body"]):
+            if y.get("k") != "If" or not any(z.get("k") == "Ret" for z in walk(y["then"])):
+                continue
+            res.instance("%s : early return at line %s" % (key, y.get("ln")))
+            cnd = strip(y["c"])
+            while cnd.get("k") in ("DropTemps", "Paren"):
+                cnd = strip(cnd["e"])
+            bound = None
+            if cnd.get("k") == "Binary" and cnd["op"] in ("<", "<=", ">", ">=", "=="):
+                for side in (cnd["l"], cnd["r"]):
+                    s0 = peel_refs(side)
+                    while s0.get("k") == "Call" and len(s0["args"]) == 1:
+                        s0 = peel_refs(s0["args"][0])
+                    if s0.get("k") == "Lit":
+                        try:
+                            bound = float(str(s0.get("v")).replace("_", "").rstrip("f3264"))
+                        except ValueError:
+                            bound = None
+                    if s0.get("k") == "Call" and not s0["args"] and (c.dfn(strip(s0["f"]).get("def")) or {}).get("name") == "zero":
+                        bound = 0.0
+            if bound is not None and bound > 0:
+                res.violate("%s : unnormalised-under-positive-threshold" % key, "`%s`: the values are returned without the division by their sum whenever the sum is below %g - a tree with a weak split (the minimum impurity decrease is a parameter) has a smaller positive sum, and its importances then do not sum to one" % (Render(c).e(cnd)[:40], bound), fn_loc(fn, y.get("ln")))
+            elif bound == 0:
+                res.ok()
+            else:
+                res.undecided("%s : early-return-condition" % key, "`%s` (fail closed)" % Render(c).e(cnd)[:40], fn_loc(fn, y.get("ln")))
     for fn in find_fn(res, F, "feature_importance", "DecisionTree"):
         key = fn_key(fn)
         tr = Tracer(fn).run()
